@@ -31,10 +31,11 @@ import (
 	"veriftool/simbuild"
 )
 
-const (
-	verifDir = "/verif"
-	repoDir  = "/repo"
-)
+const verifDir = "/verif"
+
+// repoDir is always /repo for the registered checks; a development build may point it at a
+// clean worktree with -ldflags "-X main.repoDir=…" (no run-time override exists on purpose).
+var repoDir = "/repo"
 
 type tierCfg struct {
 	Runs   int
